@@ -1,0 +1,125 @@
+//! Verification hooks. Only compiled under `--cfg rustfft_verif`.
+//!
+//! Nothing in here changes a value that flows into an FFT result: the hooks publish
+//! side information (twiddle context, plan reports, naive-DFT construction events),
+//! offer a scheduling point that is a no-op unless a scheduler is installed, and let a
+//! harness mask the results of run-time CPU feature detection (default: no masking).
+#![allow(missing_docs)]
+
+use std::cell::{Cell, RefCell};
+use std::sync::atomic::{AtomicU32, AtomicUsize, Ordering};
+
+// ---------------------------------------------------------------------------------------
+// H1: twiddle context. While `compute_twiddle(index, fft_len, _)` converts its two f64
+// values (cos first, then sin) into `T`, the pair (index, fft_len) is visible here.
+// ---------------------------------------------------------------------------------------
+thread_local! {
+    static TWIDDLE_CTX: Cell<Option<(usize, usize)>> = Cell::new(None);
+    static TWIDDLE_CALLS: Cell<u32> = Cell::new(0);
+}
+
+#[inline]
+pub fn twiddle_enter(index: usize, fft_len: usize) {
+    TWIDDLE_CTX.with(|c| c.set(Some((index, fft_len))));
+    TWIDDLE_CALLS.with(|c| c.set(0));
+}
+#[inline]
+pub fn twiddle_exit() {
+    TWIDDLE_CTX.with(|c| c.set(None));
+}
+/// Returns `(index, fft_len, nth)` where `nth` counts the queries made inside the current
+/// context (0 = first conversion = cos, 1 = second = sin). `None` outside a context.
+#[inline]
+pub fn twiddle_query() -> Option<(usize, usize, u32)> {
+    TWIDDLE_CTX.with(|c| c.get()).map(|(i, n)| {
+        let k = TWIDDLE_CALLS.with(|c| {
+            let k = c.get();
+            c.set(k + 1);
+            k
+        });
+        (i, n, k)
+    })
+}
+
+// ---------------------------------------------------------------------------------------
+// H2: scheduling point in the chunk loops of array_utils::validate_and_*.
+// ---------------------------------------------------------------------------------------
+static SCHED_HOOK: AtomicUsize = AtomicUsize::new(0);
+
+/// Install (Some) or remove (None) the global scheduling-point callback.
+pub fn set_sched_hook(hook: Option<fn(u32)>) {
+    SCHED_HOOK.store(hook.map(|f| f as usize).unwrap_or(0), Ordering::SeqCst);
+}
+#[inline]
+pub fn sched_point(site: u32) {
+    let raw = SCHED_HOOK.load(Ordering::Relaxed);
+    if raw != 0 {
+        // Safety: only ever stored from a `fn(u32)` in `set_sched_hook`
+        let f: fn(u32) = unsafe { std::mem::transmute::<usize, fn(u32)>(raw) };
+        f(site);
+    }
+}
+
+// ---------------------------------------------------------------------------------------
+// H3: mask for run-time x86 feature detection (see the macro in lib.rs).
+// ---------------------------------------------------------------------------------------
+pub const FEAT_SSE41: u32 = 1;
+pub const FEAT_AVX: u32 = 2;
+pub const FEAT_FMA: u32 = 4;
+pub const FEAT_AVX2: u32 = 8;
+static FEATURE_MASK: AtomicU32 = AtomicU32::new(u32::MAX);
+
+pub fn set_feature_mask(mask: u32) {
+    FEATURE_MASK.store(mask, Ordering::SeqCst);
+}
+pub fn feature_mask() -> u32 {
+    FEATURE_MASK.load(Ordering::SeqCst)
+}
+#[inline]
+pub fn feature_allowed(name: &str) -> bool {
+    let bit = match name {
+        "sse4.1" => FEAT_SSE41,
+        "avx" => FEAT_AVX,
+        "fma" => FEAT_FMA,
+        "avx2" => FEAT_AVX2,
+        _ => return true,
+    };
+    FEATURE_MASK.load(Ordering::Relaxed) & bit != 0
+}
+
+// ---------------------------------------------------------------------------------------
+// H4: plan / construction observation.
+// ---------------------------------------------------------------------------------------
+thread_local! {
+    static RECORDING: Cell<bool> = Cell::new(false);
+    static DFT_EVENTS: RefCell<Vec<usize>> = RefCell::new(Vec::new());
+    static PLAN_EVENTS: RefCell<Vec<String>> = RefCell::new(Vec::new());
+}
+
+/// Start (true) / stop (false) recording of construction events on this thread. Starting clears the logs.
+pub fn record(on: bool) {
+    RECORDING.with(|r| r.set(on));
+    if on {
+        DFT_EVENTS.with(|d| d.borrow_mut().clear());
+        PLAN_EVENTS.with(|d| d.borrow_mut().clear());
+    }
+}
+#[inline]
+pub fn note_dft(len: usize) {
+    if RECORDING.with(|r| r.get()) {
+        DFT_EVENTS.with(|d| d.borrow_mut().push(len));
+    }
+}
+#[inline]
+pub fn note_plan(make: impl FnOnce() -> String) {
+    if RECORDING.with(|r| r.get()) {
+        let s = make();
+        PLAN_EVENTS.with(|d| d.borrow_mut().push(s));
+    }
+}
+pub fn take_dft_events() -> Vec<usize> {
+    DFT_EVENTS.with(|d| std::mem::take(&mut *d.borrow_mut()))
+}
+pub fn take_plan_events() -> Vec<String> {
+    PLAN_EVENTS.with(|d| std::mem::take(&mut *d.borrow_mut()))
+}
